@@ -19,7 +19,10 @@ import sys
 
 import common
 
-CONTAIN = {"components", "functions", "inputs", "outputs", "exchanges", "classes", "packages", "owned_properties"}
+CONTAIN = {"components", "functions", "inputs", "outputs", "exchanges", "classes", "unions", "packages", "owned_properties"}
+# the metamodel exposes one XML containment through several typed views: a Union created in `classes`
+# (with `_type: Union`) is listed by `unions`, not by `classes`
+VIEW = {("classes", "Union"): "unions"}
 # class -> (scalar attrs, ref-valued scalar attrs {attr: target class}, list attrs {attr: (member class, containment?)})
 SCHEMA = {
     "LogicalComponent": (["name", "description"], {},
@@ -30,7 +33,8 @@ SCHEMA = {
     "FunctionInputPort": (["name"], {}, {}),
     "FunctionOutputPort": (["name"], {}, {}),
     "FunctionalExchange": (["name"], {"source": "FunctionOutputPort", "target": "FunctionInputPort"}, {}),
-    "DataPkg": (["name"], {}, {"classes": ("Class", True), "packages": ("DataPkg", True)}),
+    "DataPkg": (["name"], {}, {"classes": ("Class", True), "unions": ("Union", True), "packages": ("DataPkg", True)}),
+    "Union": (["name", "description"], {"super": "Class"}, {"owned_properties": ("Property", True)}),
     "Class": (["name", "description"], {"super": "Class"}, {"owned_properties": ("Property", True)}),
     "Property": (["name"], {"type": "Class"}, {}),
 }
@@ -78,6 +82,8 @@ class Base:
         self.roots = {"rc": m.la.root_component.uuid, "rf": m.la.root_function.uuid, "dp": m.la.data_package.uuid}
         self.root_cls = {"rc": "LogicalComponent", "rf": "LogicalFunction", "dp": "DataPkg"}
         objs = []
+        self.ref_names: dict[int, dict[str, str]] = {}  # base object -> {reference attribute: name of its target}
+        self.parent_name: dict[int, str] = {}
         self.by_class: dict[str, list[int]] = {}
         names: dict[str, int] = {}
         for o in m.search():
@@ -97,6 +103,19 @@ class Base:
                     if k != "name" and str(getattr(o, k) or "") != "":
                         scal.append([k, {"s": str(getattr(o, k))}])
             if cls in SCHEMA:
+                for a in SCHEMA[cls][1]:
+                    try:
+                        tn = getattr(getattr(o, a), "name", None)
+                    except Exception:
+                        tn = None
+                    if isinstance(tn, str) and tn:
+                        self.ref_names.setdefault(i, {})[a] = str(tn)
+                try:
+                    pn = getattr(o.parent, "name", None)
+                except Exception:
+                    pn = None
+                if isinstance(pn, str) and pn:
+                    self.parent_name[i] = str(pn)
                 for a in SCHEMA[cls][2]:
                     mem = [self.id_of[x.uuid] for x in getattr(o, a) if x.uuid in self.id_of]
                     if mem:
@@ -326,7 +345,12 @@ def render_model(ans: dict, base: Base) -> dict:
     order: list[int] = []
 
     def lists_of(o):
-        return {k: l for k, l in o["lists"]}
+        out: dict[str, list] = {}
+        for k, l in o["lists"]:
+            for m in l:
+                c = g[m]["cls"] if m in g else None
+                out.setdefault(VIEW.get((k, c), k), []).append(m)
+        return out
 
     def scal_of(o):
         return {k: v for k, v in o["scal"]}
